@@ -851,7 +851,7 @@ def lock_oracle(ctx):
     os.fsync = lambda fd: None      # harness process only, see fresh_start
     try:
         for i in range(ctx.scale(100, 1500)):
-            if ctx.time_left() < ctx.budget * 0.3:
+            if i >= 40 and ctx.time_left() < ctx.budget * 0.75:
                 break
             for f in os.listdir(work):
                 os.unlink(os.path.join(work, f))
@@ -911,7 +911,7 @@ def lock_oracle(ctx):
         # racing processes: exactly one wins
         import time
         for i in range(ctx.scale(4, 40)):
-            if ctx.time_left() < ctx.budget * 0.25:
+            if i and ctx.time_left() < ctx.budget * 0.7:
                 break
             for f in os.listdir(work):
                 os.unlink(os.path.join(work, f))
@@ -1024,6 +1024,10 @@ def verify_cases(ctx):
 
 
 def oracle(ctx):
+    import time
+    t0 = time.time()
+    lock_oracle(ctx)
+    ctx.notes["t_lock_s"] = round(time.time() - t0, 1)
     seqs = _sequences(ctx)
     for i, res in enumerate(seqs):
         if res["skip"]:
@@ -1042,14 +1046,17 @@ def oracle(ctx):
     t0 = time.time()
     for label, g, committed, outcome in verify_cases(ctx):
         ctx.case(("verify-impl", g[:64], len(g)))
-        if my_verify(g) != committed:
-            ctx.violation("a fresh start %s an uncommitted file whose Adler-32 trailer %s (%s)" %
-                          ("commits" if committed else "discards", "mismatches" if committed else "matches", label),
-                          {"kind": "verify", "hex": g.hex()}, "verify-decision-wrong")
+        # layout independent expectations: what the implementation wrote itself is committed; a single changed byte,
+        # a file shorter than the trailer and a zero-filled file are discarded (the classes proved Detectable)
+        want = True if label == "intact" else \
+            False if (label.startswith("flip") or label in ("trailerflip", "zeros") or len(g) < 4) else None
+        ctx.count("verify_expectation", {True: "commit", False: "discard", None: "none"}[want])
+        if want is not None and want != committed:
+            ctx.violation("a fresh start %s an uncommitted file that %s (%s)" %
+                          ("commits" if committed else "discards",
+                           "is exactly what the implementation saved" if want else "is a detectably garbled saved file", label),
+                          {"kind": "verify", "hex": g.hex(), "want": want}, "verify-decision-wrong")
     ctx.notes["t_verify_s"] = round(time.time() - t0, 1)
-    t0 = time.time()
-    lock_oracle(ctx)
-    ctx.notes["t_lock_s"] = round(time.time() - t0, 1)
 
 
 def _script_of(ctx, i):
@@ -1360,8 +1367,8 @@ def replay(ctx, case):
         os.makedirs(work, exist_ok=True)
         g = bytes.fromhex(case["hex"])
         _, _, after = fresh_start(work, {"new": g}, {"paths": [], "attics": [], "digests": []})
-        if ("pickle" in after) != my_verify(g):
-            ctx.violation("commit decision differs from the Adler-32 check", case, "verify-decision-wrong")
+        if ("pickle" in after) != case.get("want", my_verify(g)):
+            ctx.violation("commit decision for the uncommitted file is wrong", case, "verify-decision-wrong")
     elif k in ("lock", "race"):
         from bob.state import _BobState
         from bob.errors import ParseError
